@@ -6,6 +6,7 @@ import Kvass.Driver.Proxy
 import Kvass.Driver.Disc
 import Kvass.Driver.Explore
 import Kvass.Driver.Hash
+import Kvass.Driver.CfgHash
 
 open Kvass.Driver
 
@@ -28,4 +29,5 @@ def main (args : List String) : IO UInt32 := do
   | ["disc"] => loop stdin Disc.handle; return 0
   | ["explore"] => loop stdin Explore.handle; return 0
   | ["hash"] => loop stdin Hash.handle; return 0
+  | ["cfghash"] => loop stdin CfgHash.handle; return 0
   | _ => IO.eprintln "usage: driver <engine>"; return 2
